@@ -166,8 +166,20 @@ pub fn run(cfg: &Cfg) -> i32 {
                 Err(p) => rep.report_w("panic", src.len() as u64, || jo(vec![("source", js(src.clone())), ("panic", js(p))])),
             }
         }
+        // ... and from idle interpreters that are not fresh (values on the stack, a variable defined)
+        for st in ["5 6", "[ 1 2 ] \"s\" 7 var cv"] {
+            let mut b2 = boot();
+            b2.eval(st).unwrap();
+            for src in &tpl {
+                nprog.fetch_add(1, Ordering::Relaxed);
+                match six(&b2, src, true) {
+                    Ok(outs) => compare(src, &format!("after `{}`", st), true, &outs, &rep, &mut local),
+                    Err(p) => rep.report_w("panic", src.len() as u64, || jo(vec![("source", js(src.clone())), ("start", js(st)), ("panic", js(p))])),
+                }
+            }
+        }
         classes.merge(&local);
-        corp.push(jo(vec![("corpus", js("templates (with binary input)")), ("programs", ji(tpl.len()))]));
+        corp.push(jo(vec![("corpus", js("templates (with binary input), from the fresh interpreter and from two idle non-fresh ones")), ("programs", ji(tpl.len() * 3))]));
     }
     // every word of the dictionary as a one-word program (and after `over over`), from idle interpreters that
     // are not fresh (values left on the stack, variables defined) and under stack limits with 0 / 1 / 2
@@ -176,7 +188,7 @@ pub fn run(cfg: &Cfg) -> i32 {
     {
         const EXTERNAL: [&str; 9] = ["random", "random-bits", "read-all", "write-all", "exec-piped", "include", "require", "exit", "bye"];
         let words: Vec<String> = boot().word_list().iter().map(|s| s.to_string()).filter(|w| !EXTERNAL.contains(&w.as_str())).collect();
-        let starts: [&str; 4] = ["", "10 20 30", "[ 1 2 ] \"s\" 5 7 var cv", "1.5 nil |ff| { 1 \"k\" }"];
+        let starts: [&str; 5] = ["", "10 20 30", "[ 1 2 ] \"s\" 5 7 var cv", "1.5 nil |ff| { 1 \"k\" }", "10 [ 1 2 3 ]"];
         let before = nprog.load(Ordering::Relaxed);
         par_run(cfg.threads, words.len(), 4, |_t, pull| {
             let mut local = BTreeMap::new();
